@@ -1,7 +1,7 @@
 /* LD_PRELOAD interposer: a deterministic "concurrent writer".
    VERIF_SCHED = "<victim path>|<rule>;<rule>;..."   rule = <point>,<k>,<action>[,<arg>]
      point  : lstat | open | fstat | read        (the k-th call of that kind on the victim, k from 1; the action runs BEFORE the call)
-     action : truncate,N | append,N | rewrite,N (truncate to 0, then write N fresh bytes) | unlink | mkdir (replace by a directory) |
+     action : truncate,N | append,N | rewrite,N (truncate to 0, then write N fresh bytes) | replace,N (rename a new file of N bytes over it) | unlink | mkdir (replace by a directory) |
               symlink (replace by a symlink) | regrow,N (append N fresh bytes: used after a truncate rule)
    The victim is matched by exact path for lstat/open, and by descriptor (recorded at open) for fstat/read.
    Every fired rule is appended to the file named by VERIF_SCHED_LOG. */
@@ -72,6 +72,12 @@ static void act(struct rule *x, int idx) {
     } else if (!strcmp(x->action, "rewrite")) {
         int fd = syscall(SYS_openat, AT_FDCWD, victim, O_WRONLY | O_TRUNC);
         if (fd >= 0) { fresh(fd, x->arg, idx + 11); syscall(SYS_close, fd); }
+    } else if (!strcmp(x->action, "replace")) {
+        /* another file (new inode) with N fresh bytes is renamed over the victim */
+        char tmp[4200];
+        snprintf(tmp, sizeof tmp, "%s.new", victim);
+        int fd = syscall(SYS_openat, AT_FDCWD, tmp, O_WRONLY | O_CREAT | O_TRUNC, 0644);
+        if (fd >= 0) { fresh(fd, x->arg, idx + 23); syscall(SYS_close, fd); rename(tmp, victim); }
     } else if (!strcmp(x->action, "unlink")) {
         unlink(victim);
     } else if (!strcmp(x->action, "mkdir")) {
